@@ -58,6 +58,9 @@ func NewSolver(kind string) (*Solver, error) {
 		cmd = exec.Command("z3-new", "-in", "-smt2")
 	case "cvc5":
 		cmd = exec.Command("cvc5", "--incremental", "--lang=smt2", "--produce-models", "--fp-exp")
+	case "cvc5-int":
+		cmd = exec.Command("cvc5", "--incremental", "--lang=smt2", "--produce-models", "--solve-bv-as-int=sum")
+		kind = "cvc5"
 	default:
 		return nil, fmt.Errorf("unknown solver %q", kind)
 	}
